@@ -32,6 +32,7 @@ type check struct {
 type procCfg struct {
 	name string
 	env  []string
+	exe  string // worker binary under bin/ if not the parent's own (a phase that needs the build with -tags verif)
 }
 
 var checks = map[string]*check{}
